@@ -101,6 +101,9 @@ def collect():
     d('defaultRetryOnEmpty', 'Bool', 'true' if _D.RetryOnEmpty else 'false')
     d('defaultRetryOnInvalid', 'Bool', 'true' if _D.RetryOnInvalid else 'false')
     d('defaultReadSize', 'Nat', str(_D.ReadSize))
+    import pymodbus.server.sync as _ss
+    # the receive buffer socketserver uses for one datagram of the sync UDP server
+    d('syncUdpMaxPacket', 'Nat', str(_ss.ModbusUdpServer.max_packet_size))
     return out
 
 
